@@ -621,10 +621,28 @@ func (w *Writer) WriteChunkIndex(idx *ChunkIndex) error {
 	offset += putUint64(w.msg[offset:], idx.ChunkStartOffset)
 	offset += putUint64(w.msg[offset:], idx.ChunkLength)
 	offset += putUint32(w.msg[offset:], uint32(messageIndexLength))
+	written := 0
 	for _, chanID := range w.channelIDs {
 		if v, ok := idx.MessageIndexOffsets[chanID]; ok {
 			offset += putUint16(w.msg[offset:], chanID)
 			offset += putUint64(w.msg[offset:], v)
+			written++
+		}
+	}
+	if written < len(idx.MessageIndexOffsets) {
+		// A chunk handed to WriteChunkWithIndexes may carry message indexes of
+		// channels that were never registered with the writer. The length
+		// written above counts their offsets, so they must be written too.
+		rest := make([]uint16, 0, len(idx.MessageIndexOffsets)-written)
+		for chanID := range idx.MessageIndexOffsets {
+			if _, ok := w.channels[chanID]; !ok {
+				rest = append(rest, chanID)
+			}
+		}
+		sort.Slice(rest, func(i, j int) bool { return rest[i] < rest[j] })
+		for _, chanID := range rest {
+			offset += putUint16(w.msg[offset:], chanID)
+			offset += putUint64(w.msg[offset:], idx.MessageIndexOffsets[chanID])
 		}
 	}
 	offset += putUint64(w.msg[offset:], idx.MessageIndexLength)
